@@ -428,6 +428,22 @@ def run(report):
                 for argv in (["r"], ["--dry-run", "r"], ["--show", "r"], ["--dump"]):
                     cases.append({"kind": "line:" + shape, "files": {"justfile": text}, "argv": argv})
     n_line = len(cases) - n_cli - n_fn - n_par
+    # a reference to itself, to a partner that refers back, and to nothing, at every child position of every expression
+    # constructor (all argument positions of every function class included), in an assignment, a parameter default and an
+    # interpolation: whatever the analysis makes of it, evaluating must end with an ordinary error
+    from . import c03 as K3
+    from .exprs import Var as _Var, pr as _pr
+    for wn, w in K3.wrappers().items():
+        for tag, text in (
+                ("self", "x := %s\n" % _pr(w(_Var("x")))),
+                ("mutual", "p := %s\nq := p\n" % _pr(w(_Var("q")))),
+                ("undefined", "y := %s\n" % _pr(w(_Var("nosuch")))),
+                ("default", "r a=(%s):\n  echo {{a}}\n" % _pr(w(_Var("a")))),
+                ("interp", "r:\n  echo {{%s}}\n" % _pr(w(_Var("nosuch"))))):
+            text = "set shell := [\"%s\", \"-c\"]\nset unstable\n" % C.VSH + text + ("" if "r" in text.split(":")[0].split() or "\nr" in text else "r:\n  echo {{%s}}\n" % text.split(" ")[0])
+            for argv in (["--evaluate"], ["r"], ["--dump"]):
+                cases.append({"kind": "ref:%s:%s" % (tag, wn), "files": {"justfile": text}, "argv": argv})
+    n_ref = len(cases) - n_cli - n_fn - n_par - n_line
     # hostile settings, attributes and environment files
     sh = "set shell := [\"%s\", \"-c\"]\n" % C.VSH
     body = "r a='d' *rest:\n  echo {{a}} {{rest}}\ns:\n  #!%s\n  echo s\n" % C.VSH
@@ -467,7 +483,7 @@ def run(report):
         for argv in (["r"], ["r", "1", "2", "3"], ["s"], ["q"], ["--evaluate"], ["--list"], ["--dump"], ["--dump", "--dump-format", "json"], ["--summary"],
                      ["--dry-run", "r"], ["--choose", "--chooser", C.VSH], ["--command", C.VSH, "x"], ["--show", "q"], ["m::x"], ["--usage", "r"]):
             cases.append({"kind": "hostile", "files": fl, "argv": argv})
-    n_host = len(cases) - n_cli - n_fn - n_par - n_line
+    n_host = len(cases) - n_cli - n_fn - n_par - n_line - n_ref
     results = C.pmap(run_cli_case, cases)
     for c, (kind, text) in zip(cases, results):
         if kind is None:
@@ -482,7 +498,7 @@ def run(report):
             sig = "c11-%s:%s" % (kind.split()[0], c["kind"])
         report.failure(sig, "%s: just %r env=%r -> %s" % (kind, c["argv"], c.get("env"), text[-300:]),
                        {"op": "cli", "files": c["files"], "argv": c["argv"], "env": c.get("env"), "observed": kind, "output": text})
-    stats.update({"s2_cli_cases": n_cli, "s2_function_cases": n_fn, "s2_parameter_cases": n_par, "s2_line_cases": n_line, "s2_hostile_setting_cases": n_host,
+    stats.update({"s2_cli_cases": n_cli, "s2_function_cases": n_fn, "s2_parameter_cases": n_par, "s2_line_cases": n_line, "s2_reference_position_cases": n_ref, "s2_hostile_setting_cases": n_host,
                   "s2_functions": len(functions or [])})
 
     report.coverage.update({"inputs": len(srcs) + len(texts) + len(cases) + sum(len(deep_sources(1)) for _ in depths)})
